@@ -262,6 +262,10 @@ def execute(h):
             amt = mc(moneys[a], curs[b])
         except UnitConversionError:
             return ('exc', 'UnitConversionError')
+        if amt is None:
+            # "no rate" spelled as None: for the user of convert() that
+            # still is 'this converter cannot convert'
+            return ('exc', 'UnitConversionError')
         return ('ok', _num(Money(amt, curs[b]).amount), _num(amt))
 
     answers = [{p: direct(mc, *p) for p in pairs} for mc in mconvs]
